@@ -26,7 +26,7 @@ m = {
  "not_applicable": [{"property_id": k, "reason": v} for k, v in sorted(NOT_APPLICABLE.items())],
  "notes": "All claims are at level 'other': structural necessary conditions of each property decided for every CFG path / call site / table member of the current tree; the behavioural remainder is listed per check in level_note and in evidence.coverage.not_decided. See DESIGN.md.",
 }
-COMMON = (" Every check also carries rule R<n>.0 over the functions its own rules resolve as anchors: once the error of a step was tested non-nil, a nil-error return reachable only through that failure must lie behind a benign-error predicate of that error (IsConflict, IsNotFound, …) — a failed step of the mechanism is never turned into success (DESIGN.md §18.3); since round 5 the rule also covers what those functions call inside crossplane four levels down (static callees and the crossplane implementations of invoked interface methods), requires that the non-scalar results of a step are used only where its error is known to be nil (or handed back together with it), that an error which is only compared with nil is not followed by a success return, and that the long-lived objects of the mechanism write no state of their own beyond what is tabled (DESIGN.md §21)."
+COMMON = (" Every check also carries rule R<n>.0 over the functions its own rules resolve as anchors: once the error of a step was tested non-nil, a nil-error return reachable only through that failure must lie behind a benign-error predicate of that error (IsConflict, IsNotFound, …) — a failed step of the mechanism is never turned into success (DESIGN.md §18.3); since round 5 the rule also covers what those functions call inside crossplane four levels down (static callees and the crossplane implementations of invoked interface methods), requires that the non-scalar results of a step are used only where its error is known to be nil (or handed back together with it), that an error which is only compared with nil is not followed by a success return, that the long-lived objects of the mechanism write no state of their own beyond what is tabled (DESIGN.md §21), that a conflict is never passed to an error filter, that a function which tests the failure of its steps can itself return one, and that an error produced in a loop is looked at before the next iteration overwrites it (DESIGN.md §23)."
           " The tree is first put into a normal form, source to source and meaning-preserving, the tree itself untouched (DESIGN.md §14.1, §18.1): helpers the reference list does not know (also generic ones, local closures, methods reached through method-value locals) are inlined into their callers, loops over local literal tables are written out row by row, reads of immutable package-level lookup tables become key comparisons, local structs that are only used field by field become one local per field; a stage whose output does not type-check is discarded. "
           "Every reachability query is path-sensitive in the small sense of DESIGN.md §14.2/§18.2 (constant flags, nil-ness of result temporaries, re-tested values, pure error predicates, phis refined by feasibility), "
           "so that the verdict does not depend on how the code is split into functions, tables or carrier structs, or how a condition is spelled.")
@@ -75,9 +75,23 @@ ADDENDA6 = {
  "C17": " Round 6: no version is appended after the sort; the loop over direct dependencies is left early only with an error.",
  "C20": " Round 6: the loops that index existing packages are left early only with an error.",
 }
+ADDENDA7 = {
+ "C02": " Round 7: the propagator chain is under R2.0 (a refusal must surface).",
+ "C03": " Round 7: (R3.9) a still-desired resource never keeps a stale composition-resource-name.",
+ "C04": " Round 7: (R4.8) referenced composed resources are read by the namespace and name of their reference.",
+ "C07": " Round 7: the options of merge() set their own field only.",
+ "C08": " Round 7: (R8.9) the two XRD controllers hold distinct finalizers.",
+ "C09": " Round 7: (R9.9) a FromFieldPath detail has a value only after a successful read of the field.",
+ "C11": " Round 7: parseSchema is a pure decode of the author's schema.",
+ "C12": " Round 7: the labels narrowing the revisions are those of the compositionRevisionSelector.",
+ "C14": " Round 7: (R14.7) the revision-list accessors are complete projections.",
+ "C15": " Round 7: (R15.10) only io.EOF is a clean end of the package stream; a verification config counts whether or not it is complete.",
+ "C17": " Round 7: (R17.10) LockPackage.Neighbors is a complete projection.",
+ "C20": " Round 7: the identifier is removed as a suffix; (R20.7) certificates are issued with the signer's certificate as parent.",
+}
 for pid in sorted(CHECKS):
     c = dict(CHECKS[pid])
-    c["text"] = c["text"] + ADDENDA.get(pid, "") + ADDENDA5.get(pid, "") + ADDENDA6.get(pid, "") + COMMON
+    c["text"] = c["text"] + ADDENDA.get(pid, "") + ADDENDA5.get(pid, "") + ADDENDA6.get(pid, "") + ADDENDA7.get(pid, "") + COMMON
     c["technique"] = c["technique"] + "; path-sensitive gate-crossing search over the inlined normal form"
     m["checks"].append({
      "property_id": pid,
